@@ -74,9 +74,39 @@ def discharge(ctx, ob, timeout_ms=10000, use_cvc5=False):
     else:
         res["status"] = "unknown"
         res["reason"] = s.reason_unknown()
-        # second attempt: sound weakening to pure QF_NRA + nlsat (only "unsat" is conclusive)
-        r2 = nlsat_check(list(ob.hyps) + ctx_axioms + tlib.pi_axioms() + [z3.Not(goal)], full_timeout)
-        if r2 == "unsat":
+        hinted = False
+        for hint in ctx.ghost.get("instance_hints", []):
+            # candidate counter-instances named by the contract: cheap, and a hit is a definite refutation
+            m = hint_refute(list(ob.hyps) + ctx_axioms + tlib.pi_axioms() + [z3.Not(goal)], hint, 10000)
+            if m is not None:
+                res.update(status="refuted", backend="z3(candidate instance supplied by the contract)", model=model_summary(m, ctx.ghost.get("inputs")), _model=m)
+                res["model"]["<instance>"] = hint.get("label", "")
+                hinted = True
+                break
+        # second attempt: sound weakening to pure QF_NRA + nlsat (only "unsat" is conclusive), short budget first
+        nl_formulas = list(ob.hyps) + ctx_axioms + tlib.pi_axioms() + [z3.Not(goal)]
+        r2 = "skipped" if hinted else nlsat_check(nl_formulas, min(full_timeout, 6000))
+        if not hinted and r2 != "unsat":
+            # z3's search on nonlinear queries is sensitive to incidental state (the same formulas answered in 0.1 s or
+            # not within the budget, depending on what the process did before): a few re-runs with other seeds are
+            # cheap compared to the long fallbacks below
+            for seed in (1, 2, 3):
+                sr = _mk_solver(ctx, ob, first)
+                sr.set("random_seed", seed)
+                sr.add(z3.Not(goal))
+                rr = sr.check()
+                if rr == z3.unsat:
+                    res.update(status="proved", backend=f"z3(seed {seed})", time=time.time() - t0)
+                    res.pop("reason", None)
+                    return _finish(res, ob)
+                if rr == z3.sat:
+                    res.update(status="refuted", backend=f"z3(seed {seed})", model=model_summary(sr.model(), ctx.ghost.get("inputs")), _model=sr.model(), time=time.time() - t0)
+                    return _finish(res, ob)
+            if full_timeout > 6000:
+                r2 = nlsat_check(nl_formulas, full_timeout)
+        if hinted:
+            pass
+        elif r2 == "unsat":
             res.update(status="proved", backend="z3-nlsat(purified)")
         else:
             s3 = _mk_solver(ctx, ob, full_timeout)
@@ -93,11 +123,21 @@ def discharge(ctx, ob, timeout_ms=10000, use_cvc5=False):
                 res.update(status="proved", backend="cvc5")
             elif c == "sat" and res["status"] == "unknown":
                 res.update(status="refuted", backend="cvc5", model={"<cvc5>": "sat (model not extracted)"})
+        if res["status"] == "unknown":
+            # counter-model search: the inputs (tensors, user functions, random draws) restricted to affine functions
+            m = template_refute(list(ob.hyps) + ctx_axioms + tlib.pi_axioms() + [z3.Not(goal)], min(full_timeout, 30000))
+            if m is not None:
+                res.update(status="refuted", backend="z3(affine input templates)", model=model_summary(m, ctx.ghost.get("inputs")), _model=m)
+                res["model"]["<note>"] = "inputs restricted to affine functions of their arguments; coefficients in the model (tpl!...)"
         res["time"] = time.time() - t0
     if use_cvc5 and res["status"] == "proved" and res["backend"].startswith("z3"):
         # cross-check of an already discharged obligation by the second solver: informational, short budget
         c = cvc5_check(s, min(timeout_ms, 10000))
         res["cvc5"] = c
+    return _finish(res, ob)
+
+
+def _finish(res, ob):
     if ob.kind == "canary":
         # a canary must NOT be provable
         # "not provable within the budget" is what a canary has to show; only an actual proof is an alarm
@@ -243,3 +283,143 @@ def nlsat_check(formulas, timeout_ms):
         return str(s.check())
     except z3.Z3Exception as e:
         return f"error:{e}"
+
+
+# ----------------------------------------------------------------------------- counter-model search with input templates
+_DEFINED_PREFIXES = ("tp_", "udiv", "umod", "sel", "perm", "sortperm", "sortinv", "solve_", "act_")
+
+
+def _uninterpreted_functions(formulas):
+    seen, out, stack = set(), {}, list(formulas)
+    while stack:
+        e = stack.pop()
+        if e.get_id() in seen:
+            continue
+        seen.add(e.get_id())
+        if z3.is_app(e):
+            d = e.decl()
+            if d.kind() == z3.Z3_OP_UNINTERPRETED and d.arity() > 0:
+                out[d.name()] = d
+            stack.extend(e.children())
+        elif z3.is_quantifier(e):
+            stack.append(e.body())
+    return out
+
+
+def template_refute(formulas, timeout_ms):
+    """A failed proof is not a violation; a MODEL is.  When the solvers return unknown on hyps /\ not goal, the
+    uninterpreted INPUT symbols (input tensors, user / shape functions, abstract predicates, random draws) are replaced
+    by affine functions of their arguments with unknown coefficients -- a restriction of the inputs -- and the
+    remaining formula over a few scalars is solved.  sat = a genuine counter-model (returned), anything else = nothing
+    learned.  Symbols defined by axioms (sqrt, cos, selectors, div/mod, linear solves) stay uninterpreted."""
+    try:
+        fns = _uninterpreted_functions(formulas)
+        subs = []
+        for nm, d in fns.items():
+            base = nm.split("!")[0]
+            if "!" in nm and base not in ("rand", "randn", "normal"):
+                continue
+            if nm.startswith(_DEFINED_PREFIXES):
+                continue
+            rng = d.range()
+            if rng not in (z3.RealSort(), z3.IntSort(), z3.BoolSort()):
+                continue
+            if any(d.domain(k) not in (z3.RealSort(), z3.IntSort()) for k in range(d.arity())):
+                continue
+            as_int = rng == z3.IntSort() and all(d.domain(k) == z3.IntSort() for k in range(d.arity()))
+            mk = (lambda n: z3.Int(n)) if as_int else (lambda n: z3.Real(n))
+            body = mk(f"tpl!{nm}!0")
+            for k in range(d.arity()):
+                v = z3.Var(k, d.domain(k))
+                if not as_int and d.domain(k) == z3.IntSort():
+                    v = z3.ToReal(v)
+                body = body + mk(f"tpl!{nm}!{k + 1}") * v
+            if rng == z3.BoolSort():
+                body = body >= 0
+            elif rng == z3.IntSort() and not as_int:
+                body = z3.ToInt(body)
+            subs.append((d, body))
+        if not subs:
+            return None
+        inst = [z3.substitute_funs(f, *subs) for f in formulas]
+        s = z3.Solver()
+        s.set("timeout", int(min(timeout_ms, 5000)))
+        s.add(inst)
+        if s.check() == z3.sat:
+            return s.model()
+        # second stage: the coefficients themselves sampled (small integers, fixed seed): what is left is (nearly) ground
+        import random
+
+        rnd = random.Random(20260927)
+        coeffs = set()
+        for f in inst:
+            stack, seen = [f], set()
+            while stack:
+                e = stack.pop()
+                if e.get_id() in seen:
+                    continue
+                seen.add(e.get_id())
+                if z3.is_const(e) and e.decl().kind() == z3.Z3_OP_UNINTERPRETED and e.decl().name().startswith("tpl!"):
+                    coeffs.add(e)
+                elif z3.is_app(e):
+                    stack.extend(e.children())
+        coeffs = sorted(coeffs, key=lambda c: c.decl().name())
+        t_end = time.time() + timeout_ms / 1000.0
+        real_arg = {nm for nm, d in fns.items() if any(d.domain(k) == z3.RealSort() for k in range(d.arity()))}
+        ints = set()
+        for f in inst:
+            stack, seen = [f], set()
+            while stack:
+                e = stack.pop()
+                if e.get_id() in seen:
+                    continue
+                seen.add(e.get_id())
+                if z3.is_const(e) and e.decl().kind() == z3.Z3_OP_UNINTERPRETED and e.sort() == z3.IntSort() and not e.decl().name().startswith("tpl!"):
+                    ints.add(e)
+                elif z3.is_app(e):
+                    stack.extend(e.children())
+        ints = sorted(ints, key=lambda c: c.decl().name())
+        for attempt in range(40):
+            if time.time() > t_end:
+                break
+            s2 = z3.Solver()
+            s2.set("timeout", 3000)
+            s2.add(inst)
+            # the user / shape functions (real arguments) get numeric coefficients, the integer unknowns (sizes, row
+            # indices) small values; the contents of the input tensors are left to the solver
+            for c in coeffs:
+                fname = c.decl().name().split("!", 1)[1].rsplit("!", 1)[0]
+                if fname in real_arg:
+                    s2.add(c == rnd.choice([-2, -1, 0, 1, 2]))
+            for c in ints:
+                s2.add(c == rnd.choice([0, 0, 1, 1, 2]))
+            if s2.check() == z3.sat:
+                return s2.model()
+    except z3.Z3Exception:
+        return None
+    return None
+
+
+def hint_refute(formulas, hint, timeout_ms):
+    """a contract may name candidate counter-instances (concrete interpretations of its input symbols).  They are
+    only ever used to REFUTE: the instance is substituted and hyps /\ not goal checked; sat = genuine counter-model."""
+    try:
+        fns = _uninterpreted_functions(formulas)
+        subs = []
+        for nm, body in hint.get("funcs", {}).items():
+            d = fns.get(nm)
+            if d is None:
+                continue
+            subs.append((d, body(*[z3.Var(k, d.domain(k)) for k in range(d.arity())])))
+        inst = [z3.substitute_funs(f, *subs) for f in formulas] if subs else list(formulas)
+        s = z3.Solver()
+        s.set("timeout", int(timeout_ms))
+        s.add(inst)
+        for c, v in hint.get("consts", {}).items():
+            s.add(c == v)
+        if s.check() == z3.sat:
+            return s.model()
+    except z3.Z3Exception:
+        return None
+    return None
+
